@@ -17,6 +17,7 @@ import (
 	tmproto "github.com/cometbft/cometbft/proto/tendermint/types"
 
 	"github.com/cosmos/cosmos-sdk/baseapp"
+	"github.com/cosmos/cosmos-sdk/client"
 	"github.com/cosmos/cosmos-sdk/codec"
 	codectypes "github.com/cosmos/cosmos-sdk/codec/types"
 	"github.com/cosmos/cosmos-sdk/orm/model/ormdb"
@@ -141,10 +142,10 @@ type DataServer interface {
 	ExportGenesis(ctx sdk.Context, cdc codec.JSONCodec) (json.RawMessage, error)
 }
 
-type txConfig = interface {
-	TxDecoder() sdk.TxDecoder
-	TxEncoder() sdk.TxEncoder
-}
+type txConfig = client.TxConfig
+
+// TxBuilder returns a new transaction builder.
+func (c *Chain) TxBuilder() client.TxBuilder { return c.TxCfg.NewTxBuilder() }
 
 // StoreNames are the KV stores that make up consensus state, in hash order.
 var StoreNames = []string{authtypes.StoreKey, banktypes.StoreKey, ecocredit.ModuleName, data.ModuleName}
@@ -227,6 +228,26 @@ func New(opts Options) *Chain {
 	c.DataStore, err = dataapi.NewStateStore(c.DataDB)
 	must(err)
 
+	// ABCI entry points (used by Engine C; harmless for Engine A, which never
+	// goes through InitChain/BeginBlock/DeliverTx).
+	c.App.SetInitChainer(func(ctx sdk.Context, req abci.RequestInitChain) abci.ResponseInitChain {
+		var g Genesis
+		if len(req.AppStateBytes) > 0 {
+			must(json.Unmarshal(req.AppStateBytes, &g))
+		}
+		c.InitGenesis(ctx, g)
+		return abci.ResponseInitChain{}
+	})
+	c.App.SetBeginBlocker(func(ctx sdk.Context, req abci.RequestBeginBlock) abci.ResponseBeginBlock {
+		c.Eco.BeginBlock(ctx, req)
+		return abci.ResponseBeginBlock{Events: ctx.EventManager().ABCIEvents()}
+	})
+	// Minimal ante handler: a fresh finite gas meter per transaction (what the
+	// SDK's SetUpContextDecorator does); signatures and fees are out of scope.
+	c.App.SetAnteHandler(func(ctx sdk.Context, _ sdk.Tx, _ bool) (sdk.Context, error) {
+		return ctx.WithGasMeter(storetypes.NewGasMeter(TxGasLimit)), nil
+	})
+
 	must(c.App.LoadLatestVersion())
 	layoutOnce.Do(c.learnLayout)
 	return c
@@ -243,6 +264,18 @@ func must(err error) {
 	if err != nil {
 		panic(err)
 	}
+}
+
+// TxGasLimit is the gas limit given to every transaction on the ABCI path.
+const TxGasLimit = 10_000_000
+
+// EncodeTx builds an unsigned single-message transaction.
+func (c *Chain) EncodeTx(msg sdk.Msg) ([]byte, error) {
+	b := c.TxBuilder()
+	if err := b.SetMsgs(msg); err != nil {
+		return nil, err
+	}
+	return c.TxCfg.TxEncoder()(b.GetTx())
 }
 
 // T0 is the block time of every seed state: 2024-01-01T00:00:00Z.
